@@ -82,6 +82,8 @@ def reviewed (file fn text : String) : Option String :=
   else if file == "parse.c" && fn == "new_inc_dec" &&
       text == "new_cast(new_add(to_assign(new_add(node, new_num(addend, tok), tok)), new_num(-addend, tok), tok), node->ty)" then
     some "`add_type(node)` on the preceding line has already set node->ty, and add_type never overwrites a type that is set: the read of node->ty yields the same value before and after the first argument"
+  else if file == "parse.c" && fn == "union_rest" && text == "*init->children[mem->idx] = *new_initializer(mem->ty, false)" then
+    some "the right operand only allocates and fills a FRESH Initializer tree (calloc; it reads the member's Type, never an Initializer that exists already); the left operand reads init->children and mem->idx, which new_initializer does not write: the address stored to is the same whichever side is evaluated first (/repo e1837fd)"
   else none
 
 def verdict (io : Nat) (s : Site) : Option Why :=
